@@ -158,8 +158,11 @@ inline Inst instantiate(const Template& t, Choices& c, bool use_example, bool ne
         int s = c.pick(n + 6);
         int64_t e = exi(i, 0, 0);
         if (s < n) o.imm = imms[s]; else { int k = s - n; o.imm = k == 0 ? e : k == 1 ? e + 1 : k == 2 ? e - 1 : k == 3 ? e * 2 : k == 4 ? e / 2 : -e; }
-        c.raw();
+        uint64_t r2 = c.raw();
         bool w_form = !t.shapes.empty() && (t.shapes[0] == "W" || t.shapes[0] == "WZR" || t.shapes[0] == "WSP");
+        // 64-bit forms: occasionally a value whose low half is plausible but which has one bit set at or above bit 32 (an encoder that
+        // checks only the low 32 bits accepts it)
+        if (near_miss_ok && !w_form && (r2 & 0xF) == 0xF && o.imm >= 0) o.imm |= int64_t(1) << (32 + int((r2 >> 4) % 31));
         if (w_form && (o.imm > 0xFFFFFFFFLL || o.imm < -0x80000000LL)) o.imm &= 0xFFFFFFFFLL;
       }
     }
